@@ -243,8 +243,17 @@ def firstNodes (ccLabels : List Nat) : List Nat := (npUnique ccLabels).map (firs
 inductive BreakOut
   | fuel
   | same                    -- the input itself is returned (already acyclic)
-  | rows (a : Rows)         -- the stored entries that are kept (with their values)
+  | rows (a : Rows)         -- the stored entries that are kept; the returned matrix is `breakResult m a`
 deriving Repr
+
+/-- The matrix `break_cycles` returns when the entries `a` are kept: `tril(A, -1) + triu(A, 1)` copies the values off
+    the diagonal, `adjacency[i, j] = 0; eliminate_zeros()` deletes an entry and nothing else ever writes a value, so
+    a kept entry carries the value of the input and everything else is 0. -/
+def breakResult (m : Mat) (a : Rows) : Mat where
+  nRow := m.nRow
+  nCol := m.nCol
+  adj := a.row
+  val := fun i j => if a.has i j then m.val i j else 0
 
 /-- External answers used by `break_cycles`:
     `nCC` for the call of `is_acyclic` on the input, `labelsNoLoop directed` for
